@@ -59,6 +59,10 @@ claimed = {
    text="Proof over fsDb.Put and fsDb.writeFile that a save reaches the record of (type, session, key, language) only through one atomic rename of a temporary file that already holds the complete new value: call-site assertions show that every primitive that is not atomic (CreateTemp, File.Write, Remove) is applied to the temporary name only and that the renamed file's content equals the value; the frame shows that no other path changes (other sessions' records untouched); a failed Put leaves the record exactly as it was (all-or-nothing postcondition). Any in-place WriteFile on the record path fails a named call-site obligation (this is how the original defect was found).",
    note="Genuine defect repaired (fix: 011f25a): Put used ioutil.WriteFile on the record itself. Crash model: process death between or inside system calls; rename(2) atomic; no power loss (no fsync obligation). With complete records a reload after a crash deserialises, so ensurePersist's fallback to Save on any Load error is not reached by a crash; that fallback for other error causes is outside the statement and not under contract. Trusted: OS stubs (CreateTemp name = function of pattern and a ghost counter, starts like the pattern; record names never start with '.'), vcgo translation, solvers.",
    ref="4/C12"),
+ "C11": dict(
+   text="Two layers. (a) Contracts bind the real key derivation to spec functions: ToSessionKey/ToDbKey/ToKey (and the mem/fs overrides, pathFor/altPathFor) produce exactly type byte + (session prefix for session-scoped types) + key (+ language suffix), SetSession makes the prefix id + '.', Put/Get of the memory and filesystem backends write/read exactly the record of that key. (b) Lemmas over the same spec functions, for all data types, session ids and keys (unbounded strings, decided over the solvers' native string theory): storage keys of different data types are never equal; within a session-scoped type, different (session, key) pairs never share a storage key provided both session ids are non-empty and contain no '.'.",
+   note="Known findings: H11 (session id or key containing '.', or the empty session id, address another session's record - the lemma's failing part, with the solver's string model) and H12b (filesystem legacy fallback name crosses data types). Postgres backend: key derivation is the shared ToKey; its Get/Put are covered by C13 only as far as transactions go. Listing (Dump) not covered. Trusted: the lowering of the spec string functions to SMT-LIB strings (define-funs in vcgo), hex/base64/path.Join injective, OS stubs, solvers.",
+   ref="4/C11"),
 }
 
 pending_reason = "pending: contracts for this property are not yet under vcgo (see DESIGN.md section 4)"
